@@ -40,6 +40,17 @@ CLAIMED = {
               "index tuples with exact expected values; each is cross-checked against torch on the dense tensor and replayed into the library "
               "with the debug setting on and off; diagonal() too."),
         design="5/C03"),
+    "C12": dict(
+        engine="E3-history-machines",
+        technique="TLA+ model of per-object memoize caches over query/derivation/settings histories (key discipline from the live classes), exhaustive TLC histories replayed with per-step cache-validity checks",
+        text=("spec/LOCache.tla: objects (a base operator and operators derived from it) with exact dense denotations and a model of their "
+              "memoize caches; alphabet of 18 queries, 8 derivations, 2 settings toggles and return-to-parent. The table of which cached methods "
+              "honour their arguments is extracted from the live class and passed to TLC, which checks CacheOwned / CacheValid / DenStable over "
+              "all histories to the depth bound (an argument-ignoring Cholesky cache is rejected - non-vacuity) and prints every history with the "
+              "exact matrix of every object. The replay runs each history on one real object (12 PD instance classes), judges every answer "
+              "relationally against the exact matrix (= what a fresh copy satisfies), and after every step validates every _memoize_cache entry of "
+              "every live object against the matrix of the object holding it."),
+        design="5/C12", note="TLC 1.8; relation checks in float64 against exact integer matrices; Lanczos-valued answers under max_cholesky_size(0) are executed but judged by C05/C06"),
     "C16": dict(
         engine="E3-history-machines",
         technique="TLA+ retry-loop state machine (ideal per-member minimal jitter vs implementation-shaped loop) model checked by TLC; terminal behaviours replayed, cholesky_ex attempts trace-validated",
